@@ -14,7 +14,7 @@ SCRIPT := <puller> <comp none|zstd> <fmt beve|raw> <open ok|err|cut> <verify ok|
   verify := panic / panics / panicv = verify panics with a String / &'static str / other payload;
             slow = accepts after a delay
   fault dN / pN := the caller's digest sink returns Err / panics once more than N bytes were fed
-  resp   := c:<B>:<0|1>  (chunk body, last flag) | e (error response) | x (connection cut)
+  resp   := c:<B>:<0|1>  (chunk body, last flag) | e (error response) | x (connection cut) | h (never answers)
   B      := <H> (hex) | g<seed>.<len> (`genBytes seed len`, for large bodies)
   fault  := N: the temp file takes N bytes and the write of the next one fails (the pulling child runs
             under RLIMIT_FSIZE = N with SIGXFSZ ignored: EFBIG); sync: every write succeeds and fsync
@@ -66,6 +66,7 @@ def bodyOf (s : String) : Option Bytes :=
 def respOf (s : String) : Option Resp :=
   if s = "e" then some .error
   else if s = "x" then some .cut
+  else if s = "h" then some .cut   -- the peer hangs: for the file system the same as a peer that is gone
   else match s.splitOn ":" with
     | ["c", h, l] =>
       match bodyOf h, l with
